@@ -147,26 +147,40 @@ func c16ShowTx(tx *wire.MsgTx, used []mempool.Utxo) string {
 	return "in=" + joinOr(ins, ",") + "|out=" + joinOr(outs, ",") + hdr
 }
 
-// c16Serve runs the real MempoolAPI against a loopback server that lists `us` in the given order.
-func c16Serve(us []mempool.Utxo, rate string) (*httptest.Server, *mempool.MempoolAPI) {
-	var mu sync.Mutex
-	calls := 0
-	srv := httptest.NewServer(http.HandlerFunc(func(w http.ResponseWriter, r *http.Request) {
-		mu.Lock()
-		defer mu.Unlock()
-		if strings.Contains(r.URL.Path, "/fees/recommended") {
-			calls++
-			rr, ok := c16Rate(rate, calls)
-			if !ok {
-				w.Write([]byte("service unavailable"))
+// c16Serve points the real MempoolAPI at a loopback server that lists `us` in the given order and answers fee requests
+// from the rate script. One server is shared by all cases (ops run one at a time; the state is swapped under a mutex),
+// so a long run does not churn through listening sockets.
+var c16Srv struct {
+	once  sync.Once
+	srv   *httptest.Server
+	mu    sync.Mutex
+	us    []mempool.Utxo
+	rate  string
+	calls int
+}
+
+func c16Serve(us []mempool.Utxo, rate string) *mempool.MempoolAPI {
+	c16Srv.once.Do(func() {
+		c16Srv.srv = httptest.NewServer(http.HandlerFunc(func(w http.ResponseWriter, r *http.Request) {
+			c16Srv.mu.Lock()
+			defer c16Srv.mu.Unlock()
+			if strings.Contains(r.URL.Path, "/fees/recommended") {
+				c16Srv.calls++
+				rr, ok := c16Rate(c16Srv.rate, c16Srv.calls)
+				if !ok {
+					w.Write([]byte("service unavailable"))
+					return
+				}
+				fmt.Fprintf(w, `{"fastestFee":1099511627776,"halfHourFee":9,"hourFee":3,"economyFee":%d,"minimumFee":1}`, rr)
 				return
 			}
-			fmt.Fprintf(w, `{"fastestFee":1099511627776,"halfHourFee":9,"hourFee":3,"economyFee":%d,"minimumFee":1}`, rr)
-			return
-		}
-		w.Write([]byte(c16UtxoJSON(us)))
-	}))
-	return srv, mempool.NewMempoolAPI(srv.URL)
+			w.Write([]byte(c16UtxoJSON(c16Srv.us)))
+		}))
+	})
+	c16Srv.mu.Lock()
+	c16Srv.us, c16Srv.rate, c16Srv.calls = us, rate, 0
+	c16Srv.mu.Unlock()
+	return mempool.NewMempoolAPI(c16Srv.srv.URL)
 }
 
 func c16Exec(mp executor.MempoolAPI, up *c16Uploader) *executor.Executor {
@@ -214,8 +228,7 @@ func init() {
 	// build: the same, but fee and UTXO list come from the real MempoolAPI talking to a loopback server that lists the
 	// UTXOs in the given order (so the service-side sort is inside the run)
 	ops["C16.build"] = func(a []string) string {
-		srv, api := c16Serve(c16Utxos(a[4]), a[0])
-		defer srv.Close()
+		api := c16Serve(c16Utxos(a[4]), a[0])
 		up := &c16Uploader{}
 		if a[1] == "x" {
 			up.fail = true
@@ -232,8 +245,7 @@ func init() {
 	}
 	// utxos <listing>  =>  txid:vout:value:blocktime,… as returned by the real MempoolAPI.Utxos
 	ops["C16.utxos"] = func(a []string) string {
-		srv, api := c16Serve(c16Utxos(a[0]), "1")
-		defer srv.Close()
+		api := c16Serve(c16Utxos(a[0]), "1")
 		us, err := api.Utxos("addr")
 		if err != nil {
 			return "err"
